@@ -293,6 +293,16 @@ func TestVerifC12Hostile(t *testing.T) {
 			if filter != nil {
 				opts = append(opts, WithSubscriptionFilter(filter))
 			}
+			// an application inspector that refuses a third of what the hostile peers send (by size) and nothing else
+			var hostile sync.Map
+			if c.Chance(0.3) {
+				opts = append(opts, WithAppSpecificRpcInspector(func(from peer.ID, rpc *RPC) error {
+					if _, bad := hostile.Load(from); bad && rpc.Size()%3 == 0 {
+						return fmt.Errorf("refused by the application inspector")
+					}
+					return nil
+				}))
+			}
 			maxSize := 1 << 20
 			if c.Chance(0.3) {
 				maxSize = c.Range(2000, 70000)
@@ -426,6 +436,7 @@ func TestVerifC12Hostile(t *testing.T) {
 					p.Send(me, vSubRPC(true, "t"))
 				}
 				bad = append(bad, p)
+				hostile.Store(p.ID(), true)
 			}
 			vSettle(150 * time.Millisecond)
 			hseq := uint64(1)
